@@ -89,6 +89,7 @@ func cmdCheck(args []string) int {
 	if *tier == "thorough" {
 		e.timeoutS = *timeout * 3
 	}
+	registerCommonDynTypes(e.tt)
 	os.RemoveAll(e.workDir)
 	os.MkdirAll(e.workDir, 0o755)
 	os.RemoveAll(filepath.Join(*verifDir, "replays", *prop))
